@@ -22,6 +22,17 @@
 //	S           snapshot: for every name x handed out so far, with c = number of names:
 //	            F x,c+1 ~ B x,c+1 ~ L x ~ E x,0 ~ A x,o and K x,o for o = -(L+1)..(L+1) (L = the Len result)
 //
+// Bulk operations of the scale stream (a snapshot is cubic in the number of names):
+//
+//	R<n>,<b>    Of(b+1,…,b+n)               -> name
+//	D<r>,<k>    k times: x := r.Next(); x.Pop()   -> the names popped
+//	C<r>,<k>    k times: x := r.Prev(); x.Pop()   -> the names popped
+//	G<r>,<lo>,<hi>  for x = lo..hi: r.Join(x)   -> the names returned
+//	T<r>,<o>+<o>+…  At and Peek at every offset -> name=value:ok,…
+//
+// Lists of more than 200 items (E, F, B, D, C, G) are printed as a digest on both sides:
+// #<count>:<FNV-1a-64 of the comma-joined text>:<first three>~<last three>.
+//
 // A nil dereference prints panic:nil; a watchdog turns a hang into "hang".
 package main
 
@@ -89,6 +100,56 @@ func catch(f func() string) (res string) {
 	return f()
 }
 
+// digestAbove: longer lists are printed as count, hash and both ends (the OCaml driver prints the
+// model's and the reference's lists by the same rule).
+const digestAbove = 200
+
+func list(items []string) string {
+	if len(items) == 0 {
+		return "."
+	}
+	joined := strings.Join(items, ",")
+	n := len(items)
+	if n <= digestAbove {
+		return joined
+	}
+	h := uint64(14695981039346656037)
+	for i := 0; i < len(joined); i++ {
+		h ^= uint64(joined[i])
+		h *= 1099511628211
+	}
+	return fmt.Sprintf("#%d:%016x:%s~%s", n, h, strings.Join(items[:3], ","), strings.Join(items[n-3:], ","))
+}
+
+func intList(xs []int) string {
+	out := make([]string, len(xs))
+	for i, x := range xs {
+		out[i] = strconv.Itoa(x)
+	}
+	return list(out)
+}
+
+const maxBulk = 1 << 17 // a bulk count beyond this is not an input of the generator
+
+// drain pops k successors (predecessors) of r, one Pop each, and names them.
+func (s *sess) drain(r *R, k int, back bool) string {
+	var out []string
+	res := catch(func() string {
+		for i := 0; i < k; i++ {
+			x := r.Next()
+			if back {
+				x = r.Prev()
+			}
+			out = append(out, s.nm(x.Pop()))
+		}
+		return ""
+	})
+	if res != "" {
+		out = append(out, res)
+	}
+	return list(out)
+}
+
 func (s *sess) each(r *R, lim int) string {
 	var vs []int
 	calls := 0
@@ -101,7 +162,7 @@ func (s *sess) each(r *R, lim int) string {
 		vs = append(vs, v)
 		return calls != lim
 	})
-	return tr.Ints(vs)
+	return intList(vs)
 }
 
 func (s *sess) walk(r *R, k int, back bool) string {
@@ -121,10 +182,7 @@ func (s *sess) walk(r *R, k int, back bool) string {
 	if res != "" {
 		out = append(out, res)
 	}
-	if len(out) == 0 {
-		return "."
-	}
-	return strings.Join(out, ",")
+	return list(out)
 }
 
 func (s *sess) peek(r *R, n int) string {
@@ -164,6 +222,23 @@ func (s *sess) op(o string) string {
 			n := len(vs)
 			for i := range vs {
 				vs[i] = -777 // the ring must not alias the argument slice
+			}
+			s.register(r, n)
+			return s.nm(r)
+		})
+	case 'R':
+		n, b := num(0), num(1)
+		if n < 0 || n > maxBulk {
+			return "too-large"
+		}
+		vs := make([]int, n)
+		for i := range vs {
+			vs[i] = b + 1 + i
+		}
+		return catch(func() string {
+			r := ring.Of(vs...)
+			for i := range vs {
+				vs[i] = -777
 			}
 			s.register(r, n)
 			return s.nm(r)
@@ -217,10 +292,36 @@ func (s *sess) op(o string) string {
 		return catch(func() string { return s.each(r, num(1)) })
 	case 'Z':
 		return catch(func() string { return tr.B(r.IsEmpty()) })
-	case 'F':
-		return s.walk(r, num(1), false)
-	case 'B':
-		return s.walk(r, num(1), true)
+	case 'F', 'B':
+		return s.walk(r, num(1), o[0] == 'B')
+	case 'D', 'C':
+		return s.drain(r, num(1), o[0] == 'C')
+	case 'G':
+		lo, hi := num(1), num(2)
+		if lo < 0 || hi >= len(s.hs) {
+			return "fault"
+		}
+		var out []string
+		res := catch(func() string {
+			for x := lo; x <= hi; x++ {
+				out = append(out, s.nm(r.Join(s.hs[x])))
+			}
+			return ""
+		})
+		if res != "" {
+			out = append(out, res)
+		}
+		return list(out)
+	case 'T':
+		var out []string
+		for _, a := range strings.Split(strings.Join(args[1:], ","), "+") {
+			n, err := strconv.Atoi(a)
+			if err != nil {
+				return "?"
+			}
+			out = append(out, catch(func() string { return s.nm(r.At(n)) })+"="+s.peek(r, n))
+		}
+		return strings.Join(out, ",")
 	}
 	return "?"
 }
@@ -270,6 +371,117 @@ func seqInts(lo, n int) string {
 		xs[i] = lo + i
 	}
 	return tr.Ints(xs)
+}
+
+// ---- scale stream: one ring of n elements (n around the powers of two), split into two big
+// rings by a Join of two far-apart elements and put together again by a Join of the two rings,
+// drained by single Pops of the handle's successors / predecessors to 1/2, 1/4, 1/8, 1/16 of n
+// and to one element (observed after every phase: Len, Each, a full walk forward and backward,
+// At/Peek at the ends, in the middle and just beyond, in both directions), Pop on a ring of
+// one, regrown by Joins of the popped singletons, drained again.  No snapshots: a snapshot is
+// cubic in the number of elements ever made.
+
+func ringProbes(n int) string {
+	seen := map[int]bool{}
+	var out []string
+	for _, x := range []int{0, 1, n / 2, n - 1, n, n + 1, -1, -(n / 2), -(n - 1), -n, -(n + 1)} {
+		if !seen[x] {
+			seen[x] = true
+			out = append(out, strconv.Itoa(x))
+		}
+	}
+	return strings.Join(out, "+")
+}
+
+// ringScale: fullRegrow = put every popped element back (otherwise an eighth of them);
+// lastDrain = drain the regrown ring completely once more; obsMax = above this size only Len and
+// the neighbourhood of the handle are observed (every step of a walk is linear in the number of
+// elements ever made when the extracted model replays it).
+func ringScale(n int, fullRegrow, lastDrain bool, obsMax int) string {
+	var ops []string
+	add := func(f string, a ...any) { ops = append(ops, fmt.Sprintf(f, a...)) }
+	obs := func(r, cur int) {
+		add("L%d", r)
+		if cur > obsMax {
+			add("F%d,3", r)
+			add("B%d,3", r)
+			add("T%d,0+1+2+-1+-2", r)
+			return
+		}
+		add("E%d,0", r)
+		add("F%d,%d", r, cur+1)
+		add("B%d,%d", r, cur+1)
+		add("T%d,%s", r, ringProbes(cur))
+	}
+	add("R%d,1000", n)
+	obs(1, n)
+	if n >= 4 { // split far apart: [1, h+1 … n] stays, [2 … h] is returned; then join the two rings again
+		h := n/2 + 1
+		add("J1,%d", h)
+		obs(1, n-(h-2))
+		obs(2, h-2)
+		add("J1,2")
+		obs(1, n)
+	}
+	// names 2 … lo-1 have been popped from the front, hi+1 … n from the back
+	lo, hi := 2, n
+	cur := n
+	back := false
+	down := func(t int) {
+		k := cur - t
+		if k <= 0 {
+			return
+		}
+		if back {
+			add("C1,%d", k)
+			hi -= k
+		} else {
+			add("D1,%d", k)
+			lo += k
+		}
+		back = !back
+		cur = t
+		obs(1, cur)
+	}
+	plan := []int{n / 2, n / 4, n / 8, n / 16, 1}
+	for _, t := range plan {
+		if t >= 1 && t < cur {
+			down(t)
+		}
+	}
+	// a ring of one: its successor is itself, Pop changes nothing; the popped ones are singletons
+	add("D1,2")
+	add("C1,1")
+	if lo > 2 {
+		add("L2")
+		add("F%d,2", lo-1)
+	}
+	if hi < n {
+		add("B%d,2", n)
+	}
+	obs(1, 1)
+	// regrow: join the popped singletons back in, front ones then back ones
+	if fullRegrow {
+		if lo > 2 {
+			add("G1,2,%d", lo-1)
+		}
+		if hi < n {
+			add("G1,%d,%d", hi+1, n)
+		}
+		cur = n
+	} else if lo > 2 {
+		k := min(lo-2, n/8+1)
+		add("G1,2,%d", 1+k)
+		cur = 1 + k
+	}
+	obs(1, cur)
+	if lastDrain {
+		add("C1,%d", cur/2)
+		obs(1, cur-cur/2)
+		add("D1,%d", cur)
+		obs(1, 1)
+	}
+	return "H " + strings.Join(ops, ";")
 }
 
 func main() {
@@ -345,6 +557,32 @@ func main() {
 						}
 					}
 				}
+			}
+			// scale stream (see ringScale): all sizes 2^k-1, 2^k, 2^k+1 up to 2^allK, one size per k
+			// (2^k+1, 2^k, 2^k-1 in turn) up to 2^kmax, and a few random ones.  The extracted model
+			// replays one Pop, Join or step of a walk in time linear in the number of elements ever
+			// made, so above 2^allK the rings are observed in full only once drained below obsMax,
+			// regrown by an eighth and not drained a second time.
+			allK, kmax, obsMax := g.Scale(10, 12), g.Scale(12, 13), g.Scale(1100, 4200)
+			seen := map[int]bool{}
+			var sizes []int
+			for k := 1; k <= allK; k++ {
+				for d := -1; d <= 1; d++ {
+					if n := 1<<k + d; n >= 1 && !seen[n] {
+						seen[n] = true
+						sizes = append(sizes, n)
+					}
+				}
+			}
+			for k := allK + 1; k <= kmax; k++ {
+				sizes = append(sizes, 1<<k+1-(k-allK-1)%3)
+			}
+			for i := 0; i < g.Scale(2, 8); i++ {
+				sizes = append(sizes, g.R.Range(300, g.Scale(900, 4000)))
+			}
+			for _, n := range sizes {
+				small := n <= 1<<allK+1
+				g.Emit(ringScale(n, small, small, obsMax), true, "scale")
 			}
 			// random histories
 			for it := 0; it < g.Scale(3000, 60000); it++ {
